@@ -91,6 +91,23 @@ func (m *Merger) readEntry(entry string) (err error) {
 	return nil
 }
 
+// quoteGlobMeta escapes the characters that filepath.Glob / filepath.Match interpret, so that the
+// result matches exactly the given path.
+func quoteGlobMeta(path string) string {
+	if !strings.ContainsAny(path, `*?[\`) {
+		return path
+	}
+	var b strings.Builder
+	for i := 0; i < len(path); i++ {
+		switch path[i] {
+		case '*', '?', '[', '\\':
+			b.WriteByte('\\')
+		}
+		b.WriteByte(path[i])
+	}
+	return b.String()
+}
+
 func unsqueezeEntries(patternEntries []string) (unsqueezed []string, err error) {
 	unsqueezed = make([]string, 0, len(patternEntries))
 	for _, pattern := range patternEntries {
@@ -138,7 +155,9 @@ func (m *Merger) dfsMerge(entry string, fatherEntry string) (err error) {
 			if filepath.IsAbs(nextEntry) {
 				patterEntries = append(patterEntries, nextEntry)
 			} else {
-				patterEntries = append(patterEntries, filepath.Join(m.entryDir, nextEntry))
+				// Only the include value is a pattern: the entry directory is a literal path, so its
+				// glob metacharacters (a directory named "dae[prod]", "conf?", "a\b") are quoted.
+				patterEntries = append(patterEntries, filepath.Join(quoteGlobMeta(m.entryDir), nextEntry))
 			}
 		default:
 			return fmt.Errorf("unsupported include grammar in %v: %v", entry, include.String(false, false))
